@@ -16,7 +16,7 @@ from concurrent.futures import ProcessPoolExecutor
 import multiprocessing
 
 from . import boot
-from .sim import Violation
+from .sim import Violation, StopRun
 from .proc import SandboxDied
 
 
@@ -92,6 +92,8 @@ def execute(profile, seed=None, cfg=None, events=None, tier="quick", time_limit=
         for ev in events:
           profile.step(sim, ev, st)
       profile.finish(sim, st)
+    except StopRun:
+      pass
     except Violation as v:
       res.violation = {"prop": v.prop, "oracle": v.oracle, "detail": str(v.detail)[:2000],
                        "event_index": v.event_index if v.event_index is not None
